@@ -221,9 +221,11 @@ pub fn piece(rng: &mut Rng) -> (&'static str, Vec<u8>) {
                     }
                     if rng.chance(2, 3) {
                         x.push(';');
-                        x.push_str(&match rng.below(4) {
+                        x.push_str(&match rng.below(6) {
                             0 => String::new(),
                             1 => num(rng),
+                            2 | 3 => rng.pick(&["256", "257", "511", "512", "513", "514", "1025", "65536", "65537", "4294967295",
+                                "4294967296", "4294967297", "4294967809", "18446744073709551615", "18446744073709551616"]).to_string(),
                             _ => rng.range(1, 300).to_string(),
                         });
                         if rng.chance(1, 3) {
@@ -734,7 +736,7 @@ pub fn corners() -> Vec<(Kind, &'static str, Vec<u8>)> {
         b"\x1b[0;0R", b"\x1b[0;1R", b"\x1b[1;0R", b"\x1b[1;5R", b"\x1b[2;5R", b"\x1b[18446744073709551615;18446744073709551616R",
         b"\x1b[99999999999999999999;1R", b"\x1b[4294967296;4294967297R",
         b"\x1b[u", b"\x1b[;u", b"\x1b[:u", b"\x1b[;;u", b"\x1b[?u", b"\x1b[?0u", b"\x1b[?99999999999999999999u",
-        b"\x1b[97u", b"\x1b[97;u", b"\x1b[97;5u", b"\x1b[97;4294967296u", b"\x1b[97;4294967297u", b"\x1b[97;4294967298u", b"\x1b[97;18446744073709551617u", b"\x1b[97;1:0u", b"\x1b[97;1:1u",
+        b"\x1b[97u", b"\x1b[97;u", b"\x1b[97;5u", b"\x1b[97;256u", b"\x1b[97;257u", b"\x1b[97;511u", b"\x1b[97;512u", b"\x1b[97;513u", b"\x1b[97;514u", b"\x1b[97;65537u", b"\x1b[57376;1025u", b"\x1b[97;4294967295u", b"\x1b[97;4294967296u", b"\x1b[97;4294967297u", b"\x1b[97;4294967809u", b"\x1b[97;18446744073709551615u", b"\x1b[97;18446744073709551616u", b"\x1b[<255;1;1M", b"\x1b[<4294967295;1;1m", b"\x1b[<18446744073709551615;1;1M", b"\x1b[97;4294967298u", b"\x1b[97;18446744073709551617u", b"\x1b[97;1:0u", b"\x1b[97;1:1u",
         b"\x1b[55296u", b"\x1b[1114112u", b"\x1b[4294967393u", b"\x1b[18446744073709551713u", b"\x1b[57376u", b"\x1b[57398u", b"\x1b[57344u",
         b"\x1b[38;2;256;0;0m", b"\x1b[38;2;0;256;0m", b"\x1b[38;2;0;0;256m", b"\x1b[38:2:256:0:0m", b"\x1b[38:2::0:0:256m",
         b"\x1b[48;2;1;2;511m", b"\x1b[58;2;18446744073709551616;2;3m", b"\x1b[38;5;256m", b"\x1b[38:5:4294967296m", b"\x1b[38;2;1;2;3;4m",
